@@ -190,7 +190,7 @@ fn open_chan(st: &mut St, opts: &Value) {
 }
 
 async fn quiesce(obs: &mut Vec<Value>) {
-    if tokio::time::timeout(Duration::from_secs(20), verif::quiescent())
+    if tokio::time::timeout(Duration::from_secs(4), verif::quiescent())
         .await
         .is_err()
     {
@@ -209,6 +209,31 @@ fn resolve_task(st: &St, pid: &str, tref: &Value) -> String {
             st.canon
                 .tid_by_index(pid, i)
                 .unwrap_or_else(|| format!("missing#{i}"))
+        }
+        Value::Object(o) if o.contains_key("open") || o.contains_key("any") || o.contains_key("term") || o.contains_key("acts") => {
+            // k-th (modulo) task of a class, in creation order, resolved on the live process
+            let (class, k) = o.iter().next().map(|(c, k)| (c.clone(), k.as_u64().unwrap_or(0) as usize)).unwrap();
+            let dump = st.engine.verif_dump(pid).unwrap_or(Value::Null);
+            let empty = vec![];
+            let tasks = dump.get("tasks").and_then(|x| x.as_array()).unwrap_or(&empty);
+            let terminal = ["completed", "submitted", "backed", "cancelled", "error", "aborted", "skipped", "removed"];
+            let sel: Vec<&Value> = tasks
+                .iter()
+                .filter(|t| {
+                    let stt = t["state"].as_str().unwrap_or("");
+                    let kind = t["kind"].as_str().unwrap_or("");
+                    match class.as_str() {
+                        "open" => stt == "interrupted",
+                        "term" => kind == "act" && terminal.contains(&stt),
+                        "acts" => kind == "act",
+                        _ => true,
+                    }
+                })
+                .collect();
+            if sel.is_empty() {
+                return "none-of-class".to_string();
+            }
+            sel[k % sel.len()]["tid"].as_str().unwrap_or("").to_string()
         }
         Value::Object(o) => {
             let nid = o.get("nid").and_then(|x| x.as_str()).unwrap_or("");
@@ -301,9 +326,11 @@ async fn exec_op(st: &mut St, op: &Value, obs: &mut Vec<Value>) {
         "run" => {
             let i = a.get(1).and_then(|x| x.as_u64()).unwrap_or(0) as usize;
             if st.cfg.stepped {
-                let ok = verif::release(i);
-                if !ok {
+                let len = verif::parked().len();
+                if len == 0 {
                     obs.push(json!({"k":"norun","i":i}));
+                } else {
+                    verif::release(i % len);
                 }
             }
             quiesce(obs).await;
@@ -345,6 +372,7 @@ async fn exec_op(st: &mut St, op: &Value, obs: &mut Vec<Value>) {
             let tid = resolve_task(st, &pid, a.get(3).unwrap_or(&Value::Null));
             let opts = vars_of(a.get(4).unwrap_or(&Value::Null));
             let act = exec.act();
+            obs.push(json!({"k":"target","pid":pid,"tid":tid}));
             let r = match event.as_str() {
                 "next" | "complete" => act.complete(&pid, &tid, &opts),
                 "submit" => act.submit(&pid, &tid, &opts),
@@ -571,7 +599,13 @@ pub fn run_scenario(sc: &Value, scratch: &str) -> Value {
                 let d = st.cfg.dump_each;
                 dump_all(&st, &mut all, &rows, d);
             }
+            let dead = all.iter().any(|o| o["k"] == "stuck");
             steps.push(json!({"op": i, "obs": all}));
+            if dead {
+                // the scheduler loop died (a panic inside the engine) or work never drains: stop here
+                steps.push(json!({"op": i + 1, "obs": [{"k":"dead"}]}));
+                break;
+            }
         }
         st.engine.close();
         let canon = std::mem::take(&mut st.canon);
